@@ -672,7 +672,12 @@ func (b *pickfirstBalancer) updateSubConnState(sd *scData, newState balancer.Sub
 			// The effective state can be in either IDLE, CONNECTING or
 			// TRANSIENT_FAILURE. If it's  TRANSIENT_FAILURE, stay in
 			// TRANSIENT_FAILURE until it's READY. See A62.
-			if sd.effectiveState != connectivity.TransientFailure {
+			// The same applies when the balancer itself is in (sticky)
+			// TRANSIENT_FAILURE and this SubConn was created afterwards for an
+			// address added by a resolver update: its effective state starts
+			// out as IDLE, but its connection attempt must not move the
+			// channel out of TRANSIENT_FAILURE.
+			if sd.effectiveState != connectivity.TransientFailure && b.state != connectivity.TransientFailure {
 				sd.effectiveState = connectivity.Connecting
 				b.updateBalancerState(balancer.State{
 					ConnectivityState: connectivity.Connecting,
